@@ -343,6 +343,7 @@ type event struct {
 	derive bool
 	node   int
 	round  int
+	cs     bool // the log call carries call-site fields
 }
 
 type caseDesc struct {
@@ -372,7 +373,11 @@ func (c caseDesc) eventString() string {
 		if e.derive {
 			parts = append(parts, fmt.Sprintf("derive n%d", e.node))
 		} else {
-			parts = append(parts, fmt.Sprintf("log%d n%d", e.round, e.node))
+			f := "(no fields)"
+			if e.cs {
+				f = "(c,d)"
+			}
+			parts = append(parts, fmt.Sprintf("log%d%s n%d", e.round, f, e.node))
 		}
 	}
 	return strings.Join(parts, ", ")
@@ -525,7 +530,7 @@ func (r *runner) exec(c caseDesc) (fail *failure) {
 		curOp = "log:" + n.op
 		msg := "m" + strconv.Itoa(evNo)
 		var cs []fspec
-		if e.round == 1 {
+		if e.cs {
 			cs = []fspec{{kind: kInt, key: "c", i: int64(evNo), step: -1}, {kind: kStr, key: "d", s: "x", step: -1}}
 		}
 		touch(fx.rootFields, evNo)
